@@ -35,6 +35,13 @@ struct CfgReceiver : Receiver
     CfgReceiver(const Alphabet &a, size_t cap) : buf(new vpbt::Exact(cap)), rx(ctx_of(a)) { rx.init(buf->p, (int)cap); }
     void rearm(size_t cap) override
     {
+        if (cap < buf->n && cap % 2 == 0)
+        {
+            // the same memory announced again with a smaller length (a shared arena carved up differently): only the first
+            // `cap` bytes belong to the receiver from now on
+            rx.setbuf(buf->p, (int)cap);
+            return;
+        }
         std::unique_ptr<vpbt::Exact> nb(new vpbt::Exact(cap));
         rx.setbuf(nb->p, (int)cap);
         buf = std::move(nb);
